@@ -1251,6 +1251,30 @@ def _value_defs(fn, stmt, expr, rd, defs_at, depth=0):
   return out
 
 
+def _module_const(mod, node):
+  """The value of a module-level name that is bound exactly once and never
+  declared global in a function (a named constant); otherwise the node."""
+  if not isinstance(node, ast.Name) or node.id not in mod.assigns:
+    return node
+  n_bind = 0
+  for st in mod.tree.body:
+    n_bind += node.id in _stored_names([st])
+  for n in ast.walk(mod.tree):
+    if isinstance(n, (ast.Global, ast.Nonlocal)) and node.id in n.names:
+      return node
+  fn = mod.enclosing_function(node)
+  while fn is not None:
+    if node.id in _stored_names(fn.body) or node.id in {
+        a.arg for a in fn.args.posonlyargs + fn.args.args + fn.args.kwonlyargs}:
+      return node                # a local of the same name
+    fn = mod.enclosing_function(fn)
+  if n_bind != 1:
+    raise AnalysisError(
+        f"module-level name {node.id} is bound {n_bind} times: its value at "
+        "the time of the call is not decided")
+  return mod.assigns[node.id]
+
+
 def serialisation_instances(ctx):
   """Encoder / gzip / pipeline / dependency-order obligations (same construct
   names as rules/_pytd_schema.serialisation_instances)."""
@@ -1283,6 +1307,9 @@ def serialisation_instances(ctx):
             f"encoder may be used in pickle_utils (stray={stray})",
             {"returns": [src(r.value) for r in rets if r.value], "stray": stray})
   # 3. Save: what is written is Encode(obj); the gzip header is constant
+  # (module-local helpers that open the streams are inlined, named module
+  # constants are read)
+  mod_real, mod = mod, virtual(ctx, PICKLE, inline=("Save",), keep=("Encode",))
   fn = mod.func("Save")
   writes = [c for c in calls_in(fn) if isinstance(c.func, ast.Attribute)
             and c.func.attr == "write"]
@@ -1308,6 +1335,7 @@ def serialisation_instances(ctx):
   if any(k.arg is None for k in g.keywords) or len(g.args) > 0:
     raise AnalysisError("pickle_utils.Save: GzipFile called with positional/**kwargs")
   mt = kwarg(g, "mtime")
+  mt = _module_const(mod, mt) if mt is not None else None
   mt_ok = isinstance(mt, ast.Constant) and isinstance(mt.value, (int, float)) \
       and not isinstance(mt.value, bool)
   ctx.check(mt_ok, "Save:gzip-mtime", PICKLE, g.lineno,
@@ -1315,11 +1343,13 @@ def serialisation_instances(ctx):
             "the gzip header must carry a constant mtime (absent/None means "
             "time.time())", {"mtime": src(mt) if mt is not None else None})
   fnm = kwarg(g, "filename")
+  fnm = _module_const(mod, fnm) if fnm is not None else None
   fn_ok = isinstance(fnm, ast.Constant) and fnm.value == ""
   ctx.check(fn_ok, "Save:gzip-filename", PICKLE, g.lineno,
             f"gzip.GzipFile(filename={src(fnm) if fnm is not None else '<absent>'}): "
             "the header file name must be blanked (absent means fileobj.name)",
             {"filename": src(fnm) if fnm is not None else None})
+  mod = mod_real
   # 4. Serialize / SerializeAndSave: SerializeAst -> Encode / Save.  What the
   # sink receives is followed through local definitions, so an inlined
   # temporary (`Encode(serialize_ast.SerializeAst(..))`) and a named one are
